@@ -248,4 +248,47 @@ def explainQueue (cfg : Cfg) (log : List Ev) : String :=
   | "ok" => explainLive cfg log.reverse
   | s => s
 
+/-! ## node level: every retryable failure of every flow leads to another check -/
+
+/-- one call of the check pipeline for a unit of work: when, the how-many-th, and with which check block -/
+structure Check where
+  t     : Nat
+  att   : Nat
+  block : Nat
+deriving DecidableEq, Repr
+
+/-- consecutive checks: the answer to the `j`-th was a retryable failure with interval `iv`; the next check comes
+strictly after `eff iv` ("no earlier than its retry interval") and at most one retry tick after that (the retry
+flow dequeues every `tick`; "every retryable failure schedules a retry") -/
+def checksTimed (cfg : Cfg) (tick : Nat) : List Res → List Check → Bool
+  | r :: rs, c :: c' :: cs =>
+    decide (c'.t > c.t + effInterval cfg r.retryInterval) &&
+    decide (c'.t ≤ c.t + effInterval cfg r.retryInterval + tick) &&
+    checksTimed cfg tick rs (c' :: cs)
+  | _, _ => true
+
+def checksCounted (script : List Res) (cs : List Check) : Bool :=
+  decide (cs.length = planChecks script) && decide (cs.map (·.att) = List.range cs.length)
+
+def checksSamePayload (p : Payload) (cs : List Check) : Bool := cs.all (fun c => decide (c.block = p.trigger.blockNumber))
+
+def stagedRight (p : Payload) (script : List Res) (perf : List CheckResult) : Bool :=
+  decide (perf.filter (fun r => decide (r.workID = p.workID)) = planStaged script)
+
+/-- one unit of work at node level: `cs` = the pipeline calls for it in time order, `perf` = what the node
+finally offers as performable -/
+def itemOk (cfg : Cfg) (tick : Nat) (p : Payload) (script : List Res) (cs : List Check) (perf : List CheckResult) : Bool :=
+  checksCounted script cs && checksSamePayload p cs && checksTimed cfg tick script cs && stagedRight p script perf
+
+def explainItem (cfg : Cfg) (tick : Nat) (p : Payload) (script : List Res) (cs : List Check) (perf : List CheckResult) : String :=
+  if cs.length < planChecks script then
+    (if !checksTimed cfg tick script cs then "retried outside (interval, interval + retry tick]"
+     else "a retryable failure was never followed by another check of its payload (retry lost)")
+  else if cs.length > planChecks script then "a unit of work was checked again although its last answer was not a retryable failure"
+  else if !checksCounted script cs then "checks of a unit of work out of sequence"
+  else if !checksSamePayload p cs then "retried with a payload of another check block"
+  else if !checksTimed cfg tick script cs then "retried outside (interval, interval + retry tick]"
+  else if !stagedRight p script perf then "terminal result of a unit of work is not what the node stages for it"
+  else "ok"
+
 end AutoVerif.C12
